@@ -23,10 +23,17 @@ fn seeded(buf: [u8; 24], fill: usize, cursor: usize, base: usize, root_size: usi
 
 /// J junk bytes, then a planted valid child `[0x82, 0x81, v]`.
 fn recover_after_junk<const J: usize>() {
-    let mut buf: [u8; 24] = kani::any();
-    let base: usize = kani::any();
-    kani::assume(base < (1usize << 40));
+    // symbolic: the junk bytes, the child's payload, the bytes behind it (stale), Root's size; the absolute
+    // offset is a constant (it only shifts every reported position) and the bytes before the cursor are never read
+    let mut buf = [0u8; 24];
+    let sym: [u8; 6] = kani::any();
+    let base: usize = 1000;
     let cursor = 2usize; // right behind Root's header
+    let mut f = 0;
+    while f < 6 {
+        buf[cursor + f] = sym[f];
+        f += 1;
+    }
     let mut i = 0;
     while i < J {
         // junk: a byte that is not an id of the specification; everything starting there is rejected
@@ -77,10 +84,15 @@ fn c14_recover_junk2() {
 
 /// Arbitrary K-byte window behind the cursor, source at EOF.
 fn recover_arbitrary<const K: usize>() {
-    let buf: [u8; 24] = kani::any();
-    let base: usize = kani::any();
-    kani::assume(base < (1usize << 40));
+    let mut buf = [0u8; 24];
+    let sym: [u8; 6] = kani::any(); // the K remaining bytes and stale bytes behind them
+    let base: usize = 1000;
     let cursor = 2usize;
+    let mut f = 0;
+    while f < 6 {
+        buf[cursor + f] = sym[f];
+        f += 1;
+    }
     let fill = cursor + K;
     let root_size: usize = kani::any();
     kani::assume(root_size < (1usize << 40));
